@@ -823,8 +823,10 @@ def gen_expr(rng) -> str:
 
 
 def gen_polls(rng, start: datetime) -> list[datetime]:
-    style = rng.choice(["regular", "jitter", "burst", "gaps"])
+    style = rng.choice(["regular", "jitter", "burst", "gaps", "boundary"])
     t = start + timedelta(seconds=rng.randint(0, 59), microseconds=rng.choice([0, 0, 250000, 999999]))
+    if style == "boundary":      # polls exactly on minute starts: differences of exactly 60 s, 120 s, ... (window / interval edges)
+        t = start
     out = []
     for _ in range(rng.randint(6, 14)):
         out.append(t)
@@ -832,6 +834,8 @@ def gen_polls(rng, start: datetime) -> list[datetime]:
             t += timedelta(seconds=rng.choice([10, 20, 30, 60]))
         elif style == "jitter":
             t += timedelta(seconds=30 + rng.randint(-8, 8), microseconds=rng.randint(0, 999999))
+        elif style == "boundary":
+            t += timedelta(seconds=rng.choice([60, 60, 120, 50, 70, 10]))
         elif style == "burst":
             t += timedelta(seconds=rng.choice([0, 1, 1, 2, 55, 61]), milliseconds=rng.choice([0, 1, 500]))
         else:
